@@ -230,7 +230,8 @@ class _EntityBase(EntityProtocol):
     def update(self):
         """Update the entity from current data in mdib."""
         orig = self._mdib.descriptions.handle.get_one(self.handle)
-        self.descriptor.update_from_other_container(orig)
+        # update from a copy: update_from_other_container shares nested values with its source
+        self.descriptor.update_from_other_container(orig.mk_copy())
 
 
 class Entity(_EntityBase):
@@ -248,8 +249,8 @@ class Entity(_EntityBase):
     def update(self):
         """Update the entity from current data in mdib."""
         super().update()
-        orig = self._mdib.states.get_one(self.handle)
-        self.state.update_from_other_container(orig)
+        orig = self._mdib.states.descriptor_handle.get_one(self.handle)
+        self.state.update_from_other_container(orig.mk_copy())
 
 
 class MultiStateEntity(_EntityBase):
@@ -279,7 +280,7 @@ class MultiStateEntity(_EntityBase):
         for state in list(self.states.values()):
             orig = states_dict.get(state.Handle)
             if orig is not None:
-                state.update_from_other_container(orig)
+                state.update_from_other_container(orig.mk_copy())
             else:
                 self.states.pop(state.Handle)
         # add new states
